@@ -2,6 +2,7 @@
 package c03
 
 import (
+	"os"
 	"bytes"
 	"container/list"
 	"fmt"
@@ -22,7 +23,12 @@ import (
 	"verif/rfl"
 )
 
-func TestMain(m *testing.M)   { pbt.Main(m, "C03") }
+func TestMain(m *testing.M) {
+	// an agent's environment: the counter pack's constructor reads its default start time from here; what is written
+	// and read back is the pack's field, whatever the environment says
+	os.Setenv("WHATAP.starttime", "1234567890123")
+	pbt.Main(m, "C03")
+}
 func TestReplay(t *testing.T) { pbt.Replay(t) }
 
 func encode(sp *gpack.Spec, p pack.Pack) []byte {
